@@ -17,7 +17,9 @@ the state component of the (state, probability, value) tuples which the model dr
   fires" (it still has to be there literally: changing its constants breaks the link).
 * a diagonal SparsePauliOp is the model's `list term`; `_evaluate_sparsepauli(state, op)` is the model's `eval_diag op
   state` (its `.real` is the identity on that real number) and `sampled_expectation_value(dist, oper)` is the model's
-  `plain_expectation` over the (probability, eval_diag) entries — UNTRANSLATED Qiskit callees.
+  `plain_expectation` over the (probability, eval_diag) entries DIVIDED BY THE TOTAL MASS of the distribution, which is what qiskit
+  computes (sum p*v / sum p; for mass 1 — is_dist, the hypothesis of every C14 theorem — that is plain_expectation itself; for
+  mass 0 qiskit returns nan / inf, no exception: Err "NonFinite", NaN and inf not being values of Q) — UNTRANSLATED Qiskit callees.
 * a BitstringEvaluator is the record `evaluator` (input length, evaluation function `list bool -> result Q`; the
   function is an opaque callable which may raise).
 * the call of `_get_expectation` in the two public functions goes to the TRANSLATED `gen_get_expectation` (state type
@@ -53,9 +55,20 @@ SPEC = dict(
         "(* QuasiDistribution.binary_probabilities(): keys written as bitstrings of (at least) num_bits characters *)\n"
         "Definition binary_probabilities (num_bits : nat) (d : list (N * Q)) : list (list bool * Q) :=\n"
         "  map (fun sp => (bitstring_of num_bits (fst sp), snd sp)) d.\n"
-        "(* sampled_expectation_value(dist, oper) for a diagonal operator *)\n"
-        "Definition sampled_expectation_value (d : list (N * Q)) (op : list term) : Q :=\n"
-        "  plain_expectation (map (fun sp => (snd sp, eval_diag op (fst sp))) d).\n"
+        "(* sampled_expectation_value(dist, oper) for a diagonal operator: what qiskit computes, sum(p*v) / sum(p) (Rust sampled_expval_float / _complex;\n"
+        "   pinned by translator/conformance.py, families callee-qiskit-sampled-expectation-value-...).  Total mass 1 (Qeq; is_dist, the hypothesis\n"
+        "   of every C14 theorem): the quotient IS plain_expectation (x / 1.0 = x exactly), written without the division so that the link to the\n"
+        "   hand-written model is an equation.  Total mass 0: qiskit returns nan or +-inf WITHOUT raising (per Pauli string sum(p*sign)/0,\n"
+        "   then the dot product with the coefficients: nan as soon as one string gives 0/0 or the infinities cancel); neither is a value\n"
+        "   of Q: Err \"NonFinite\" (not a Python exception class; like Err \"nan\" for numpy.median [] in Crit/Criteria.v).  C14Link.v proves\n"
+        "   sampled_expectation_value_quotient: for every non-zero mass the value is == plain_expectation / mass. *)\n"
+        "Definition dist_mass (d : list (N * Q)) : Q := fold_left (fun acc sp => acc + snd sp) d 0.\n"
+        "Definition sampled_expectation_value (d : list (N * Q)) (op : list term) : result Q :=\n"
+        "  let s := plain_expectation (map (fun sp => (snd sp, eval_diag op (fst sp))) d) in\n"
+        "  let m := dist_mass d in\n"
+        "  if Qeq_bool m 1 then Ok s\n"
+        "  else if Qeq_bool m 0 then Err \"NonFinite\"%string\n"
+        "  else Ok (s / m).\n"
     ),
     reserved=["entry", "term", "dist", "fill", "cvar", "isclose", "isclose_tol", "isclose_rel", "accumulate", "rtol", "atol", "evaluator"],
     attrs={
@@ -74,7 +87,7 @@ SPEC = dict(
     funcs={
         # numpy.isclose(a, b, atol=1e-8): the model's isclose_tol (isclose_tol atol = isclose, isclose_tol 0 = isclose_rel)
         "isclose": dict(code="isclose_tol {atol} {a} {b}", ty=BOOL, params=[("a", Q), ("b", Q), ("atol", Q)], optional={"atol": "atol"}),
-        "sampled_expectation_value": dict(code="sampled_expectation_value {dist} {oper}", ty=Q, params=[("dist", Dist), ("oper", Operator)]),
+        "sampled_expectation_value": dict(code="sampled_expectation_value {dist} {oper}", ty=Q, params=[("dist", Dist), ("oper", Operator)], partial=True),
         "_evaluate_sparsepauli": dict(code="eval_diag {observable} {state}", ty=Complex, params=[("state", IntState), ("observable", Operator)]),
         # the translated function itself (defined earlier in the generated module); `_` = its state type, inferred
         "_get_expectation": dict(code="gen_get_expectation _ {state_list} {alpha}", ty=Q, params=[("state_list", AnyList), ("alpha", Q)], partial=True),
